@@ -738,6 +738,35 @@ def make_api_module(I, registry):
         I_.ctx.fresh_vars[name] = ("pred", fn)
         return NativeFn("pred:" + name, lambda I2, a, k: mk_bool(fn(zi(a[0]))))
 
+    @nf("enable_guarded_collections")
+    def _guarded(I_, args, kw):
+        I_.guarded = True
+
+    @nf("exclude_case_unless")
+    def _exclude(I_, args, kw):
+        """precondition on the concrete *case* (table pair): when it does not hold the case is outside the
+        harness's reach (reported as excluded, not as a vacuous harness)"""
+        if not args[0]:
+            I_.case_excluded = True
+            raise PathEnd("case excluded")
+
+    @nf("members")
+    def _members(I_, args, kw):
+        """members(xs) -> [(guard, element)]: the elements of a (possibly guarded) list with their presence conditions"""
+        xs = args[0]
+        if isinstance(xs, I_.bm.GList):
+            return [(g, v) for g, v in xs.items]
+        return [(True, v) for v in I_.iterate_concrete(xs)]
+
+    @nf("pick")
+    def _pick(I_, args, kw):
+        """pick(values, idx): values[idx] as ONE merged symbolic value (idx within range on this path)"""
+        vals, idx = args
+        if isinstance(idx, int):
+            return vals[idx]
+        from .values import choice_of
+        return choice_of(zi(idx), list(vals))
+
     @nf("is_symbolic")
     def _is_sym(I_, args, kw):
         return isinstance(args[0], Sym)
@@ -798,7 +827,7 @@ class Registry:
             name = kw.get("name", f.name)
             self.harnesses[name] = dict(name=name, func=f, prop=kw.get("prop"), target=kw.get("target"),
                                         uses=list(kw.get("uses", [])), loops=list(kw.get("loops", [])),
-                                        proves=kw.get("proves"), tier=kw.get("tier", "quick"), cases=kw.get("cases"), bounded=kw.get("bounded", False),
+                                        proves=kw.get("proves"), tier=kw.get("tier", "quick"), cases=kw.get("cases"), cases_quick=kw.get("cases_quick"), bounded=kw.get("bounded", False),
                                         timeout=kw.get("timeout"), note=kw.get("note", ""))
         elif kind == "summary":
             name = kw.get("name", f.name)
